@@ -47,10 +47,34 @@ def rule_defaults(ctx, rep, config="c-lib"):
     if not good:
         raise AnalysisBroken("yaep_create_grammar has no non-NULL return")
     n = 0
+    helper_sites = {}
+    for c in f.calls():
+        g = p.m.functions.get(c.callee) if c.callee else None
+        if g is None or g.decl or not g.args or g.args[0]["ty"] != "%grammar*" or g.name == "yaep_free_grammar":
+            continue
+        helper_sites[c.id] = (c, g)
     for fld, want in sorted(DEFAULTS.items()):
         key = "yaep_create_grammar/" + fld
         sts = _field_stores(f, "grammar." + fld)
         n += 1
+        if not sts:
+            # a helper that receives the new object and stores the default on all its paths
+            done = False
+            for (c, g) in helper_sites.values():
+                hs = [s_ for s_ in _field_stores(g, "grammar." + fld) if resolve_addr(g, s_.ops[1]).root == ("a", 0)]
+                if hs and all(const_int(s_.ops[0]) is not None and ((want == "nonzero" and const_int(s_.ops[0]) != 0) or const_int(s_.ops[0]) == want) for s_ in hs) \
+                        and any(all(g.dominates(s_.block.name, rb.name) for rb in g.ret_blocks()) for s_ in hs) \
+                        and all(f.dominates(c.block.name, b) for (_, b, _) in good):
+                    rep.ok("R5-defaults", key, sample={"field": fld, "default": want, "store": hs[0].where(), "via": g.name})
+                    done = True
+                    break
+                elif hs:
+                    rep.violation("R5-defaults", key, "new objects get `%s' = %s (in %s), documented default is %s" % (fld, const_int(hs[0].ops[0]), g.name, want),
+                                  witness=[hs[0].where()], where=hs[0].where())
+                    done = True
+                    break
+            if done:
+                continue
         if not sts:
             rep.violation("R5-defaults", key, "the new grammar object's `%s' is never initialised (documented default %s)" % (fld, want), where=f.where())
             continue
@@ -96,6 +120,9 @@ def _paths(f, maxn=64):
     return res
 
 
+SAME_AS_OLD = set()   # paths on which the parameter is known to equal the field's current value
+
+
 def _interval_of_path(f, path, argno):
     """interval of parameter `argno' implied by the branches taken along `path'
     (only comparisons of the parameter with constants are interpreted)"""
@@ -112,6 +139,15 @@ def _interval_of_path(f, path, argno):
             continue
         a, b = strip_int_casts(f, c.ops[0]), strip_int_casts(f, c.ops[1])
         pred = c.d["pred"]
+        if pred in ("eq", "ne") and {"k": "a", "v": argno} in (a, b):
+            other = b if a == {"k": "a", "v": argno} else a
+            oi = f.inst(other)
+            if oi is not None and oi.op == "load" and resolve_addr(f, oi.ops[0]).root == ("a", 0):
+                # comparison of the new value with the current value of the field
+                equal_edge = (pred == "eq") == taken_true
+                if equal_edge:
+                    SAME_AS_OLD.add(tuple(path))
+                continue
         if a == {"k": "a", "v": argno} and const_int(b) is not None:
             cst = const_int(b)
         elif b == {"k": "a", "v": argno} and const_int(a) is not None:
@@ -205,11 +241,14 @@ def rule_setters(ctx, rep, config="c-lib"):
         paths = _paths(f)
         bad = None
         for path in paths:
+            SAME_AS_OLD.discard(tuple(path))
+            lo, hi = _interval_of_path(f, path, 1)
             if s.block.name not in path:
+                if tuple(path) in SAME_AS_OLD and kind == "id":
+                    continue      # nothing to store: the field already has this value
                 bad = "the store is skipped on a path"
                 break
             val = _value_on_path(f, s.ops[0], path)
-            lo, hi = _interval_of_path(f, path, 1)
             if lo > hi:
                 continue  # infeasible
             if val is None or val[0] == "select":
